@@ -29,6 +29,7 @@ def handle (line : String) : String :=
     | "rtcyc" => rtcycLine j
     | "qtrace" => qtraceLine j
     | "qctor" => qctorLine j
+    | "pipe" => pipeLine j
     | "qmeta" => verdict true true "meta" ""
     | k => verdict false true "bad-kind" k
 
